@@ -22,10 +22,19 @@
      5  LineTo / CubicTo without a current point ("A current point must be defined")
      6  ClosePath without a current point
      7  Pop without a matching Push (OnNewStack balance)
-     8  DrawText using a font no AddFont has registered
+     8  DrawText on a canvas using a font that no AddFont has registered ON THAT CANVAS
+        (a page and every group returned by NewGroup are separate canvases with
+        their own resources: backend/graphics.go AddFont is a Canvas method)
      9  AddPage / NewGroup re-using an existing canvas number
      10 AddPage after the document level calls (CreateAnchors, SetBookmarks, metadata) started
      11 Paint with both fill rules (FillEvenOdd and FillNonZero are mutually exclusive)
+     12 DrawWithOpacity / SetColorPattern / SetAlphaMask on canvas c with a canvas g that is
+        not a group created by c.NewGroup and not consumed yet (a page, a group of
+        another canvas, a group composited twice)
+     13 (final condition, like the OnNewStack balance) a group that received painting
+        was never passed to DrawWithOpacity / SetColorPattern / SetAlphaMask: what was
+        painted on it is lost.  An orphan group that received no painting is
+        harmless (draw.go:247-258 creates one for opacity < 1 with a singular transform).
    Model only; lemmas in Draw/ProtocolProofs.v. *)
 From Coq Require Export List NArith Bool.
 Export ListNotations.
@@ -77,12 +86,14 @@ Inductive call :=
 Record cstate := mkc { depth : N; haspath : bool; haspoint : bool }.
 Record pstate := mkp {
   canv : list (N * cstate);
-  fonts : list N;
+  fonts : list (N * N);       (* (canvas, font): the AddFont calls received, per canvas *)
   npages : N;
-  closed : bool
+  closed : bool;
+  pending : list (N * N);     (* (group, parent): results of NewGroup not consumed yet *)
+  dirty : list N              (* canvases that received painting *)
 }.
 
-Definition pinit : pstate := mkp [] [] 0 false.
+Definition pinit : pstate := mkp [] [] 0 false [] [].
 Definition fresh : cstate := mkc 0 false false.
 
 Fixpoint lookup (c : N) (l : list (N * cstate)) : option cstate :=
@@ -98,6 +109,8 @@ Fixpoint update (c : N) (f : cstate -> cstate) (l : list (N * cstate)) : list (N
   end.
 
 Definition mem (x : N) (l : list N) : bool := existsb (N.eqb x) l.
+Definition pmem (a b : N) (l : list (N * N)) : bool :=
+  existsb (fun p => N.eqb (fst p) a && N.eqb (snd p) b) l.
 
 (* the canvas a call is made on, its group argument, its float arguments *)
 Definition call_canvas (c : call) : option N :=
@@ -150,7 +163,9 @@ Definition guard_kind (st : pstate) (c : call) : N :=
   | CClip k _ => if haspath (cur st k) then 0 else 4
   | CLineTo k _ | CCubicTo k _ => if haspoint (cur st k) then 0 else 5
   | CClosePath k => if haspoint (cur st k) then 0 else 6
-  | CDrawText _ fs _ => if forallb (fun f => mem f (fonts st)) fs then 0 else 8
+  | CDrawText k fs _ => if forallb (fun f => pmem k f (fonts st)) fs then 0 else 8
+  | CDrawWithOpacity k g _ | CSetAlphaMask k g | CSetColorPattern k g _ =>
+      if pmem g k (pending st) then 0 else 12
   | _ => 0
   end.
 
@@ -161,26 +176,39 @@ Definition guard (st : pstate) (c : call) : N :=
   else guard_kind st c.
 
 Definition on (st : pstate) (c : N) (f : cstate -> cstate) : pstate :=
-  mkp (update c f (canv st)) (fonts st) (npages st) (closed st).
+  mkp (update c f (canv st)) (fonts st) (npages st) (closed st) (pending st) (dirty st).
+
+(* canvas c received painting *)
+Definition mark (st : pstate) (c : N) : pstate :=
+  mkp (canv st) (fonts st) (npages st) (closed st) (pending st) (c :: dirty st).
+
+(* group g has been handed to its parent *)
+Definition consume (st : pstate) (g : N) : pstate :=
+  mkp (canv st) (fonts st) (npages st) (closed st)
+      (filter (fun p => negb (N.eqb (fst p) g)) (pending st)) (dirty st).
 
 Definition effect (st : pstate) (c : call) : pstate :=
   match c with
   | CAddPage k _ =>
       match lookup k (canv st) with
       | Some _ => st
-      | None => mkp ((k, fresh) :: canv st) (fonts st) (npages st + 1) (closed st)
+      | None => mkp ((k, fresh) :: canv st) (fonts st) (npages st + 1) (closed st) (pending st) (dirty st)
       end
-  | CNewGroup _ g _ =>
+  | CNewGroup k g _ =>
       match lookup g (canv st) with
       | Some _ => st
-      | None => mkp ((g, fresh) :: canv st) (fonts st) (npages st) (closed st)
+      | None => mkp ((g, fresh) :: canv st) (fonts st) (npages st) (closed st) ((g, k) :: pending st) (dirty st)
       end
-  | CDoc _ _ => mkp (canv st) (fonts st) (npages st) true
+  | CDoc _ _ => mkp (canv st) (fonts st) (npages st) true (pending st) (dirty st)
   | CPush k => on st k (fun s => mkc (depth s + 1) (haspath s) (haspoint s))
   | CPop k => on st k (fun s => mkc (N.pred (depth s)) (haspath s) (haspoint s))
   | CRect k _ | CMoveTo k _ => on st k (fun s => mkc (depth s) true true)
-  | CPaint k _ | CClip k _ => on st k (fun s => mkc (depth s) false false)
-  | CAddFont _ f => mkp (canv st) (f :: fonts st) (npages st) (closed st)
+  | CPaint k _ => mark (on st k (fun s => mkc (depth s) false false)) k
+  | CClip k _ => on st k (fun s => mkc (depth s) false false)
+  | CAddFont k f => mkp (canv st) ((k, f) :: fonts st) (npages st) (closed st) (pending st) (dirty st)
+  | CDrawText k _ _ | CDrawImage k _ | CDrawGradient k _ => mark st k
+  | CDrawWithOpacity k g _ => consume (if mem g (dirty st) then mark st k else st) g
+  | CSetAlphaMask _ g | CSetColorPattern _ g _ => consume st g
   | _ => st
   end.
 
@@ -197,8 +225,14 @@ Fixpoint run (st : pstate) (t : list call) : option pstate :=
 Definition balanced (st : pstate) : bool :=
   forallb (fun kc => depth (snd kc) =? 0) (canv st).
 
+(* rule 13: no group holding painting is left unconsumed *)
+Definition orphans (st : pstate) : list (N * N) :=
+  filter (fun p => mem (fst p) (dirty st)) (pending st).
+Definition complete (st : pstate) : bool :=
+  match orphans st with [] => true | _ => false end.
+
 Definition accept (t : list call) : bool :=
-  match run pinit t with Some st => balanced st | None => false end.
+  match run pinit t with Some st => balanced st && complete st | None => false end.
 
 (* monitor: all illegal calls (index, rule) and the final state *)
 Fixpoint monitor_from (i : N) (st : pstate) (t : list call) : list (N * N) * pstate :=
